@@ -84,16 +84,19 @@ type Explorer struct {
 	solo map[[2]int]*soloInfo // (shape index, observer index)
 
 	// current scenario
-	sc      *scenario
-	bound   int
-	minNew  int // executions with fewer preemptions were counted by an earlier pass
-	want    []string
-	shared  error
-	res     []string
-	bodies  []func()
-	execs   []*verifsched.Exec
-	tuples  map[string]int64
-	sampled bool
+	sc        *scenario
+	bound     int
+	minNew    int // executions with fewer preemptions were counted by an earlier pass
+	want      []string
+	wantSteps []int
+	shared    error
+	res       []string
+	bodies    []func()
+	execs     []*verifsched.Exec
+	tuples    map[string]int64
+	sampled   bool
+	// wantSample: record one sample execution of the current scenario.
+	wantSample bool
 
 	rootIdx  int64
 	shardIdx int64
@@ -119,6 +122,7 @@ func (e *Explorer) setScenario(sc *scenario, si int) bool {
 	n := len(sc.obs)
 	e.res = make([]string, n)
 	e.want = make([]string, n)
+	e.wantSteps = make([]int, n)
 	e.bodies = make([]func(), n)
 	e.tuples = map[string]int64{}
 	e.sampled = false
@@ -127,7 +131,7 @@ func (e *Explorer) setScenario(sc *scenario, si int) bool {
 		if !s.ok {
 			return false
 		}
-		e.want[i] = s.res
+		e.want[i], e.wantSteps[i] = s.res, s.steps
 		i, o := i, sc.obs[i]
 		e.bodies[i] = func() { e.res[i] = o.Run(e.shared) }
 	}
@@ -255,8 +259,10 @@ func (e *Explorer) check(x *verifsched.Exec, devs []verifsched.Dev) {
 	clause, msg := e.failure(x)
 	if clause == "" {
 		e.tuples[""]++
+		// not an error (a correct cache makes the second caller shorter),
+		// but worth knowing: today every thread takes exactly its solo path.
 		for i := range x.Steps {
-			if s := e.solo[[2]int{e.shapeIdx(), e.sc.oidx[i]}]; s != nil && s.steps != x.Steps[i] {
+			if e.wantSteps[i] != x.Steps[i] {
 				r.Count("executions_with_step_count_unlike_solo", 1)
 				break
 			}
@@ -329,7 +335,8 @@ func (e *Explorer) account(x *verifsched.Exec, devs []verifsched.Dev) {
 	r.Count(fmt.Sprintf("executions_with_%d_preemptions", x.Preemptions), 1)
 	if !e.sampled && x.Preemptions == e.bound && x.Preemptions > 0 {
 		e.sampled = true
-		if e.sc.oidx[0]%3 == 0 {
+		if e.wantSample {
+			e.wantSample = false
 			r.Sample(map[string]interface{}{"scenario": e.sc.name, "schedule": append([]verifsched.Dev{}, devs...),
 				"switches": strings.TrimSpace(e.describe(x)), "decisions": x.N, "steps_per_thread": append([]int{}, x.Steps...)})
 		}
@@ -502,10 +509,12 @@ func Run(c *core.Ctx, r *core.Result) {
 
 	done1, done2, done3 := 0, 0, 0
 	// pass 1: every pair at bound 1 (includes bound 0).
-	for _, sc := range pairs {
+	for i, sc := range pairs {
 		if e.stop() {
 			break
 		}
+		// each worker contributes a sample from a different scenario.
+		e.wantSample = i == (c.Shard*83+7)%len(pairs)
 		e.runScenario(sc, sidx[sc], 1, 0)
 		if !e.stopped {
 			done1++
